@@ -2,8 +2,8 @@
    the model Model/Jcs.v of NumberToJson.py / Canonicalize.py against
    Spec/Rfc8785.v and Spec/JcsSpec.v.  Statements only; proofs are in Proofs/Jcs*.v. *)
 From Coq Require Import String NArith ZArith List Bool Sorted Permutation.
-From V Require Import Base.UString Base.Json Model.JcsText Model.Jcs Spec.Rfc8785 Spec.JcsSpec
-  Proofs.JcsNumFacts Proofs.JcsEscFacts Proofs.JcsKeyFacts Proofs.JcsCanonFacts Proofs.JcsWsFacts.
+From V Require Import Base.UString Base.Json Model.JcsText Model.Jcs Spec.Rfc8785 Spec.JcsSpec Spec.JsonParse
+  Proofs.JcsNumFacts Proofs.JcsEscFacts Proofs.JcsKeyFacts Proofs.JcsCanonFacts Proofs.JcsWsFacts Proofs.JcsParseFacts.
 Import ListNotations.
 Open Scope N_scope.
 
@@ -88,3 +88,33 @@ Print Assumptions sort_deep_idem.
 Theorem canon_fixpoint : forall v, keys_scalar v -> canon (sort_deep v) = canon v.
 Proof. exact canon_fixpoint_proof. Qed.
 Print Assumptions canon_fixpoint.
+
+(* ---- reading the text back ------------------------------------------------------------------ *)
+(* an independent JSON reader (Spec/JsonParse.v) applied to the canonical text
+   returns the value itself: members in key order, numbers as their canonical text *)
+Theorem canon_parse : forall v t, canon v = JOk t -> nums_wf v -> parse_json t = Some (json_of v).
+Proof. exact canon_parse_proof. Qed.
+Print Assumptions canon_parse.
+
+(* hence the canonical text determines the JSON value (used by C06) *)
+Theorem canon_injective : forall v w t, canon v = JOk t -> canon w = JOk t -> nums_wf v -> nums_wf w ->
+  json_of v = json_of w.
+Proof. exact canon_injective_proof. Qed.
+Print Assumptions canon_injective.
+
+(* the hypotheses are satisfiable and the definitions compute: a key above U+FFFF
+   sorts before a BMP key above the surrogate range (UTF-16 order, not code point order) *)
+Example canon_example :
+  let v := JObj [(u "\00FFFF", JInt 1); (u "\010000", JArr [JFloat (u "1e+21"); JStr (u "a\00000A")])] in
+  nums_wf v /\ keys_scalar v /\ nodup_keys v /\
+  option_map show_ustr (match canon v with JOk t => Some t | _ => None end) =
+    Some "{\000022\010000\000022:[1e+21,\000022a\00005Cn\000022],\000022\00FFFF\000022:1}"%string /\
+  (match canon v with JOk t => parse_json t | _ => None end) = Some (json_of v).
+Proof.
+  cbv zeta. split; [|split; [|split; [|split]]].
+  - repeat constructor; discriminate.
+  - repeat constructor; cbv; auto; intros H; discriminate.
+  - repeat constructor; simpl; intuition discriminate.
+  - vm_compute. reflexivity.
+  - vm_compute. reflexivity.
+Qed.
